@@ -136,6 +136,20 @@ const TRAILING: &[(&str, &str)] = &[
     (":", "zzw 1 ;"),
     ("var", "zzv"),
     ("!", "zzv"),
+    // the parsing cursor and the output buffer are ordinary variables a script can store to
+    ("!", "offset"),
+    ("!", "input"),
+    ("!", "output"),
+    ("!", "output-length"),
+    ("!", "big?"),
+    ("!", "offset remain"),
+    ("!", "offset 8 bits"),
+    ("!", "offset dump"),
+    ("!", "offset |ff| find"),
+    ("!", "input 1 bits"),
+    ("!", "input remain"),
+    ("!", "output-length |ff| emit"),
+    ("!", "output |ff| emit"),
     ("local", "zzl"),
     ("let", "zzv"),
     ("let", "[ zza zzb ]"),
@@ -156,6 +170,9 @@ const TRAILING: &[(&str, &str)] = &[
     ("require", "\"ok.xeh\""),
     ("<name>", "zzn"),
     ("enum", "zzE : zzA : zzB endenum"),
+    ("enum", "zzE 170141183460469231731687303715884105727 = zzA : zzB endenum"),
+    ("enum", "zzE -170141183460469231731687303715884105728 = zzA : zzB endenum zzB"),
+    ("enum", "zzE : zzA \"s\" = zzB : zzC endenum"),
     ("#(", "1 2 + #)"),
     ("#(", "1 0 / #)"),
     ("[", "1 2 ]"),
@@ -252,8 +269,8 @@ fn run_inner(case: &Case, st: &mut Stats) -> Outcome {
         };
         st.event(kind, 0);
         let res: Option<Xresult> = match call {
-            Call::Eval(s) => Some(xs.eval(s)),
-            Call::Compile(s) => Some(xs.compile(s)),
+            Call::Eval(s) => Some(xs.eval(&expand(s))),
+            Call::Compile(s) => Some(xs.compile(&expand(s))),
             Call::Run => Some(xs.run()),
             Call::Next(k) => {
                 let mut r = Ok(());
@@ -395,6 +412,50 @@ fn words_of(d2: bool) -> Vec<String> {
     })
 }
 
+/// `@@pad:N@@` in a source stands for N spaces and `@@rep:N:TEXT@@` for N copies of TEXT: lines and
+/// sources far longer than anything written out in a replay file (error columns beyond 65535)
+fn expand(src: &str) -> String {
+    if !src.contains("@@") {
+        return src.to_string();
+    }
+    let mut out = String::new();
+    let mut rest = src;
+    while let Some(i) = rest.find("@@") {
+        out.push_str(&rest[..i]);
+        let after = &rest[i + 2..];
+        match after.find("@@") {
+            Some(j) => {
+                let body = &after[..j];
+                let mut parts = body.splitn(3, ':');
+                match (parts.next(), parts.next(), parts.next()) {
+                    (Some("pad"), Some(n), None) => {
+                        let n: usize = n.parse().unwrap_or(0).min(200_000);
+                        out.extend(std::iter::repeat(' ').take(n));
+                    }
+                    (Some("rep"), Some(n), Some(text)) => {
+                        let n: usize = n.parse().unwrap_or(0).min(100_000);
+                        for _ in 0..n {
+                            out.push_str(text);
+                        }
+                    }
+                    _ => {
+                        out.push_str("@@");
+                        out.push_str(body);
+                        out.push_str("@@");
+                    }
+                }
+                rest = &after[j + 2..];
+            }
+            None => {
+                out.push_str("@@");
+                rest = after;
+            }
+        }
+    }
+    out.push_str(rest);
+    out
+}
+
 /// one word applied to 0..3 arguments drawn from the value classes
 fn sweep_source(rng: &mut Rng, words: &[String]) -> String {
     let w = rng.pick(words).clone();
@@ -469,6 +530,17 @@ fn soup_source(rng: &mut Rng, words: &[String]) -> String {
 }
 
 fn gen_source(rng: &mut Rng, words: &[String]) -> String {
+    // rarely (they cost a millisecond each): lines and sources far longer than usual
+    if rng.chance(1, 400) {
+        return (*rng.pick(&[
+            "@@pad:70000@@zzunknownword",
+            "@@rep:40000:1 @@nosuchword",
+            "@@pad:65535@@1 0 /",
+            "\"@@pad:66000@@\" zzunknownword",
+            "@@rep:3000:\n@@@@pad:300@@] ",
+        ]))
+        .to_string();
+    }
     match rng.below(10) {
         0..=4 => sweep_source(rng, words),
         5..=7 => soup_source(rng, words),
@@ -488,6 +560,7 @@ fn gen_source(rng: &mut Rng, words: &[String]) -> String {
             ": zzr zzr ; zzr",
             "\"ab\" begin dup 2 collect concat dup length 4000 > until",
             "1000 0 do I loop",
+
             "include \"loop.xeh\"",
             "\"bin.dat\" read-all",
             "|ff 00| \"out.bin\" write-all",
